@@ -1,10 +1,18 @@
 (* C04_Transport.v — transport for the Kalman prediction used as the spec side of C04's
    prediction half: kf_predict_comp at the LIST instance represents the MathComp one on
-   well-formed inputs (any realFieldType).  Built on ListOpsCorrect.v / C02_Transport.v. *)
-Require Import ZArith List Bool.
-Require Import BFL.Ops BFL.ListOps BFL.C01_Model BFL.C03_Model BFL.C04_Model.
+   well-formed inputs (any realFieldType).  Built on ListOpsCorrect.v / C02_Transport.v.
+   Second part (Section UKF): the unscented Kalman steps themselves — ukf_predict_additive,
+   ukf_predict_generic, ukf_correct_additive, ukf_correct_generic, ukf_likelihood — for
+   ARBITRARY list-level oracles and all layouts: the executed list instance represents the
+   MathComp instance, under the per-call correspondence premises of C03_Transport.v (square
+   root on the covariances actually factored, eigenvector oracle only with quaternion outputs,
+   the model functions) and with the invertibility of the inverted matrices (the predicted
+   measurement covariances Pyy_i of the MathComp run) as an explicit premise. *)
+Require Import ZArith List Bool Lia.
+Require Import BFL.Ops BFL.ListOps BFL.Density BFL.C01_Model BFL.C03_Model BFL.C04_Model.
 From mathcomp Require Import all_ssreflect all_algebra.
-Require Import BFL.MxOps BFL.ListOpsCorrect BFL.C02_Transport.
+Require Import BFL.MxOps BFL.LinAlg BFL.ListOpsCorrect BFL.C02_Transport BFL.C01_Transport BFL.UT_Transport BFL.C03_Transport.
+Require Import BFL.C03_Proofs BFL.C04_Proofs.
 Set Implicit Arguments.
 Unset Strict Implicit.
 Unset Printing Implicit Defensive.
@@ -31,3 +39,423 @@ move=> HF HQ Hx HP; rewrite /kf_predict_comp /=; split; first exact: (repr_mul t
 by apply: (repr_add tr) => //; apply: (repr_mul tr); [exact: (repr_mul tr) | exact: (repr_tr tr)].
 Qed.
 End T.
+
+(* ====================================================================== *)
+Lemma F2_and (A B : Type) (R Q : A -> B -> Prop) l1 l2 :
+  List.Forall2 R l1 l2 -> List.Forall2 Q l1 l2 -> List.Forall2 (fun a b => R a b /\ Q a b) l1 l2.
+Proof.
+elim=> [|a b l1' l2' Hab _ IH] H2; first exact: List.Forall2_nil.
+by inversion H2; subst; apply: List.Forall2_cons => //; exact: IH.
+Qed.
+
+Lemma F2_and_r (A B : Type) (R : A -> B -> Prop) (P : B -> Prop) l1 l2 :
+  List.Forall2 R l1 l2 -> List.Forall P l2 -> List.Forall2 (fun a b => R a b /\ P b) l1 l2.
+Proof.
+elim=> [|a b l1' l2' Hab _ IH] H2; first exact: List.Forall2_nil.
+by inversion H2; subst; apply: List.Forall2_cons => //; exact: IH.
+Qed.
+
+Section UKF.
+Variable F : realFieldType.
+Variable tr : Transc F.
+Variable sq : forall n, 'M[F]_n -> 'M[F]_n.
+Variable eg : forall n, 'M[F]_n -> 'M[F]_(n,1).
+Variables sqL egL : nat -> lmxF F -> lmxF F.
+Let S := FOps tr.
+Let OL := ListMat S sqL egL.
+Let OM := MxMat tr sq eg.
+Notation repr m n l A := (@C02_Transport.repr F m n l A) (only parsing).
+Notation rcols r := (@repr_list F r 1) (only parsing).
+Local Notation Rget := (@rget F tr sq eg sqL egL).
+Local Notation Rbuild := (@rbuild F tr sq eg sqL egL).
+Local Notation Radd := (@r_add F tr sq eg sqL egL).
+Local Notation Rsub := (@r_sub F tr sq eg sqL egL).
+Local Notation Ropp := (@r_opp F tr sq eg sqL egL).
+Local Notation Rmul := (@r_mul F tr sq eg sqL egL).
+Local Notation Rtr := (@r_tr F tr sq eg sqL egL).
+Local Notation Rzero := (@r_zero F tr sq eg sqL egL).
+Local Notation Rinv := (@r_inv F tr sq eg sqL egL).
+Local Notation Rdet := (@r_det F tr sq eg sqL egL).
+Local Notation Rcomp d dc := (@repr_comp F d dc) (only parsing).
+Local Notation Sqc dc := (@sq_corr F sq sqL dc) (only parsing).
+Local Notation Egc := (@eg_corr F eg egL) (only parsing).
+Local Notation Rutres p pc dx := (@repr_utres F tr sq eg sqL egL p pc dx) (only parsing).
+
+(* ---- mixtures ---- *)
+Definition repr_mix d dc (ml : mixture OL d dc) (mm : mixture OM d dc) : Prop :=
+  [/\ mx_layout ml = mx_layout mm,
+      List.Forall2 (@repr_comp F d dc) (mx_comps ml) (mx_comps mm) &
+      mx_weights ml = mx_weights mm].
+
+(* the square-root oracles correspond on every covariance of the list *)
+Definition sq_corr_comps d dc (csl : list (lmxF F * lmxF F)) (csm : list ('cV[F]_d * 'M[F]_dc)) : Prop :=
+  List.Forall2 (fun cl cm => Sqc dc cl.2 cm.2) csl csm.
+
+Lemma comps_sq d dc (csl : list (lmxF F * lmxF F)) (csm : list ('cV[F]_d * 'M[F]_dc)) :
+  List.Forall2 (@repr_comp F d dc) csl csm -> sq_corr_comps csl csm ->
+  List.Forall2 (@repr_comp_sq F sq sqL d dc) csl csm.
+Proof. exact: F2_and. Qed.
+
+Lemma mix_of_result_repr Lout p pc dx (rl : ut_result OL p pc dx) (rm : ut_result OM p pc dx) :
+  Rutres p pc dx rl rm -> repr_mix (@mix_of_result OL Lout p pc dx rl) (@mix_of_result OM Lout p pc dx rm).
+Proof.
+move=> [rcs rws]; split=> //=.
+by apply: F2_map; apply: F2_impl rcs => ul um [r1 r2 _].
+Qed.
+
+Lemma linear_cols_corr d p lA (A : 'M[F]_(p,d)) : repr p d lA A ->
+  @f_corr F d p (@linear_cols OL d p lA) (@linear_cols OM d p A).
+Proof.
+move=> rA lX X rX; rewrite /linear_cols; apply: F2_map; apply: F2_impl rX => l x rx; exact: Rmul.
+Qed.
+
+(* ---- prediction ---- *)
+Theorem ukf_predict_additive_transport n (Lstate : layout) (a b k : F) (sp ss : bool) fL fM lQ (Q : 'M[F]_n) q
+        (prevl : mixture OL n n) (prevm : mixture OM n n) :
+  Egc (l_noiseless Lstate) -> @f_corr F n n fL fM -> repr n n lQ Q -> repr_mix prevl prevm ->
+  (sp || ss = false -> sq_corr_comps (mx_comps prevl) (mx_comps prevm)) ->
+  repr_mix (@ukf_predict_additive OL n Lstate a b k sp ss fL lQ q prevl)
+           (@ukf_predict_additive OM n Lstate a b k sp ss fM Q q prevm).
+Proof.
+move=> Heg Hf rQ rp Hsq; rewrite /ukf_predict_additive; case E: (sp || ss) => //.
+have [El rc Ew] := rp; rewrite El.
+apply: mix_of_result_repr; apply: ut_additive_state_transport => //.
+by apply: comps_sq => //; exact: Hsq.
+Qed.
+
+Theorem ukf_predict_generic_transport n q (Ldesc Lstate : layout) (a b k : F) (sp ss : bool) fL fM lQ (Q : 'M[F]_q)
+        (prevl : mixture OL n n) (prevm : mixture OM n n) :
+  Egc (l_noiseless Lstate) -> @f_corr F (n + q) n fL fM -> repr q q lQ Q -> repr_mix prevl prevm ->
+  (sp || ss = false ->
+   sq_corr_comps (List.map (@augment_comp OL n n q lQ) (mx_comps prevl))
+                 (List.map (@augment_comp OM n n q Q) (mx_comps prevm))) ->
+  repr_mix (@ukf_predict_generic OL n q Ldesc Lstate a b k sp ss fL lQ prevl)
+           (@ukf_predict_generic OM n q Ldesc Lstate a b k sp ss fM Q prevm).
+Proof.
+move=> Heg Hf rQ rp Hsq; rewrite /ukf_predict_generic; case E: (sp || ss) => //.
+have [El rc Ew] := rp; rewrite El.
+apply: mix_of_result_repr; apply: ut_state_transport => //.
+apply: comps_sq; last exact: Hsq.
+by apply: F2_map; apply: F2_impl rc => cl cm rcc; exact: augment_comp_repr.
+Qed.
+
+(* ---- correction ---- *)
+Definition repr_ukfst m (sl : ukf_state OL m) (sm : ukf_state OM m) : Prop :=
+  rcols m (us_innov sl) (us_innov sm) /\ @repr_list F m m (us_Pyy sl) (us_Pyy sm).
+
+Definition repr_kfo n m (ol : kf_out OL n m) (om : kf_out OM n m) : Prop :=
+  [/\ repr n 1 (gmean (ko_comp ol)) (gmean (ko_comp om) : 'cV[F]_n),
+      repr n n (gcov (ko_comp ol)) (gcov (ko_comp om) : 'M[F]_n),
+      repr m 1 (ko_innov ol) (ko_innov om : 'cV[F]_m) &
+      repr m m (ko_Py ol) (ko_Py om : 'M[F]_m)].
+
+Definition repr_corr n m (xl : mixture OL n n * ukf_state OL m * list (kf_out OL n m))
+           (xm : mixture OM n n * ukf_state OM m * list (kf_out OM n m)) : Prop :=
+  [/\ repr_mix xl.1.1 xm.1.1, repr_ukfst xl.1.2 xm.1.2 & List.Forall2 (@repr_kfo n m) xl.2 xm.2].
+
+Lemma repr_ukfst_nil m lPs (Ps : list 'M[F]_m) : @repr_list F m m lPs Ps ->
+  repr_ukfst (@mkUkfState OL m nil lPs) (@mkUkfState OM m nil Ps).
+Proof. by move=> rP; split=> //; exact: List.Forall2_nil. Qed.
+
+Lemma repr_corr_idle n m (ml : mixture OL n n) (mm : mixture OM n n) (sl : ukf_state OL m) (sm : ukf_state OM m) :
+  repr_mix ml mm -> repr_ukfst sl sm -> @repr_corr n m (ml, sl, nil) (mm, sm, nil).
+Proof. by move=> rm rs; split=> //; exact: List.Forall2_nil. Qed.
+
+(* the stored cross-covariance: entries agree everywhere *)
+Lemma cross_storage_get dx pc (cl : list (lmxF F)) (cm : list 'M[F]_(dx,pc)) r c :
+  @repr_list F dx pc cl cm ->
+  @mget OL _ _ (@cross_storage OL dx pc cl) r c = @mget OM _ _ (@cross_storage OM dx pc cm) r c.
+Proof.
+move=> rc; rewrite /cross_storage -(F2_length rc).
+apply: (Rget (Rbuild (m:=dx) (n:=pc * length cl) _)) => i j _ _.
+by apply: Rget; apply: F2_nth => //; exact: Rzero.
+Qed.
+
+Lemma ukf_gain_repr dx pc (cl : list (lmxF F)) (cm : list 'M[F]_(dx,pc)) mcs i lPyy (Pyy : 'M[F]_pc) :
+  @repr_list F dx pc cl cm -> repr pc pc lPyy Pyy -> Pyy \in unitmx ->
+  repr dx pc (@ukf_gain OL dx pc _ (@cross_storage OL dx pc cl) mcs i lPyy)
+             (@ukf_gain OM dx pc _ (@cross_storage OM dx pc cm) mcs i Pyy).
+Proof.
+move=> rc rP uP; rewrite /ukf_gain; apply: Rmul; last exact: Rinv.
+by apply: Rbuild => r c _ _; exact: cross_storage_get.
+Qed.
+
+Lemma ukf_correct_comp_repr n m (cl : list (lmxF F)) (cm : list 'M[F]_(n,m)) mcs i
+      xPl (xPm : 'cV[F]_n * 'M[F]_n) lPyy (Pyy : 'M[F]_m) lnu (nu : 'cV[F]_m) :
+  @repr_list F n m cl cm -> Rcomp n n xPl xPm -> repr m m lPyy Pyy -> Pyy \in unitmx -> repr m 1 lnu nu ->
+  repr_kfo (@ukf_correct_comp OL n m _ (@cross_storage OL n m cl) mcs i xPl lPyy lnu)
+           (@ukf_correct_comp OM n m _ (@cross_storage OM n m cm) mcs i xPm Pyy nu).
+Proof.
+move=> rc [rx rP] rPyy uP rnu; have rK := ukf_gain_repr mcs i rc rPyy uP.
+rewrite /ukf_correct_comp; split=> //=.
+- by apply: Radd => //; exact: Rmul.
+- by apply: Rsub => //; apply: Rmul; [exact: Rmul | exact: Rtr].
+Qed.
+
+Lemma ukf_correct_loop_repr n m mcs (predl : list (lmxF F * lmxF F)) (predm : list ('cV[F]_n * 'M[F]_n))
+      (rl : ut_result OL m m n) (rm : ut_result OM m m n) lnus (nus : list 'cV[F]_m) :
+  List.Forall2 (@repr_comp F n n) predl predm -> Rutres m m n rl rm ->
+  List.Forall (fun u : ut_comp OM m m n => (uc_cov u : 'M[F]_m) \in unitmx) (ur_comps rm) ->
+  rcols m lnus nus ->
+  List.Forall2 (@repr_kfo n m) (@ukf_correct_loop OL n m mcs predl rl lnus)
+                               (@ukf_correct_loop OM n m mcs predm rm nus).
+Proof.
+move=> rp [rcs _] Hu rnu; rewrite /ukf_correct_loop (F2_length rp).
+have rcross : @repr_list F n m (List.map (fun u => uc_cross u) (ur_comps rl))
+                               (List.map (fun u => uc_cross u) (ur_comps rm)).
+  by apply: F2_map; apply: F2_impl rcs => ul um [].
+apply: F2_map.
+apply: F2_impl (F2_combine_eq (List.seq 0 (length predm)) (F2_combine rp (F2_combine (F2_and_r rcs Hu) rnu))).
+move=> [il [xl [ul nl]]] [im [xm [um nm]]] /= [-> [rx [[[_ rcov _] uc] rn]]].
+exact: ukf_correct_comp_repr.
+Qed.
+
+Lemma overwrite_prefix_repr (A B : Type) (R : A -> B -> Prop) n1 n2 o1 o2 :
+  List.Forall2 R n1 n2 -> List.Forall2 R o1 o2 ->
+  List.Forall2 R (C04_Model.overwrite_prefix n1 o1) (C04_Model.overwrite_prefix n2 o2).
+Proof.
+move=> rn ro; rewrite /C04_Model.overwrite_prefix (F2_length rn).
+by apply: List.Forall2_app => //; exact: F2_skipn.
+Qed.
+
+(* the innovation function of the measurement model: corresponding inputs to corresponding
+   outputs, with agreeing validity flags *)
+Definition inn_corr m (gL : list (lmxF F) -> lmxF F -> option (list (lmxF F)))
+           (gM : list 'cV[F]_m -> 'cV[F]_m -> option (list 'cV[F]_m)) : Prop :=
+  forall lP P ly y, rcols m lP P -> repr m 1 ly y -> @repr_opt _ _ (rcols m) (gL lP ly) (gM P y).
+
+(* every matrix the correction inverts: the predicted measurement covariances of the MathComp run *)
+Definition Pyy_invertible m n (ut : option (ut_result OM m m n)) : Prop :=
+  match ut with
+  | None => True
+  | Some r => List.Forall (fun u : ut_comp OM m m n => (uc_cov u : 'M[F]_m) \in unitmx) (ur_comps r)
+  end.
+
+Lemma ukf_correct_finish_repr n m mcs ly (y : 'cV[F]_m) gL gM
+      (utl : option (ut_result OL m m n)) (utm : option (ut_result OM m m n))
+      (predl corrl : mixture OL n n) (predm corrm : mixture OM n n)
+      (stl : ukf_state OL m) (stm : ukf_state OM m) :
+  repr m 1 ly y -> @inn_corr m gL gM -> @repr_opt _ _ (Rutres m m n) utl utm -> Pyy_invertible utm ->
+  repr_mix predl predm -> repr_mix corrl corrm ->
+  repr_corr (@ukf_correct_finish OL n m mcs ly gL utl predl corrl stl)
+            (@ukf_correct_finish OM n m mcs y gM utm predm corrm stm).
+Proof.
+move=> ry Hg rut Hu rp rco; rewrite /ukf_correct_finish.
+case: utl utm rut Hu => [rl|] [rm|] //= rr Hu; last first.
+  by apply: repr_corr_idle => //; apply: repr_ukfst_nil; exact: List.Forall2_nil.
+have [rcs _] := rr.
+have rPyy : @repr_list F m m (List.map (fun u => uc_cov u) (ur_comps rl)) (List.map (fun u => uc_cov u) (ur_comps rm)).
+  by apply: F2_map; apply: F2_impl rcs => ul um [].
+have rmeans : rcols m (List.map (fun u => uc_mean u) (ur_comps rl)) (List.map (fun u => uc_mean u) (ur_comps rm)).
+  by apply: F2_map; apply: F2_impl rcs => ul um [].
+move: (Hg _ _ _ _ rmeans ry).
+case: (gL _ _) => [lnus|]; case: (gM _ _) => [nus|] //= rnu; last first.
+  by apply: repr_corr_idle => //; exact: repr_ukfst_nil.
+have [Elp rpc Ewp] := rp; have [Elc rcc Ewc] := rco.
+have routs := ukf_correct_loop_repr mcs rpc rr Hu rnu.
+split=> //; split=> //=.
+apply: overwrite_prefix_repr => //.
+by apply: F2_map; apply: F2_impl routs => ol om [r1 r2 _ _].
+Qed.
+
+Section Correct.
+Variables (n m : nat) (Ldesc Lmeas : layout) (a b k : F) (skip : bool).
+Variables (measl : option (lmxF F)) (measm : option 'cV[F]_m).
+Variables (gL : list (lmxF F) -> lmxF F -> option (list (lmxF F)))
+          (gM : list 'cV[F]_m -> 'cV[F]_m -> option (list 'cV[F]_m)).
+Variables (predl corrl : mixture OL n n) (predm corrm : mixture OM n n).
+Variables (stl : ukf_state OL m) (stm : ukf_state OM m).
+Hypothesis Heg : Egc (l_noiseless Lmeas).
+Hypothesis rmeas : @repr_opt _ _ (fun l (y : 'cV[F]_m) => repr m 1 l y) measl measm.
+Hypothesis Hg : @inn_corr m gL gM.
+Hypothesis rp : repr_mix predl predm.
+Hypothesis rco : repr_mix corrl corrm.
+Hypothesis rst : repr_ukfst stl stm.
+
+Theorem ukf_correct_additive_transport fL fM lR (R : 'M[F]_m) :
+  @fopt_corr F n m fL fM -> repr m m lR R ->
+  (skip = false -> measm <> None -> sq_corr_comps (mx_comps predl) (mx_comps predm)) ->
+  (skip = false -> forall y, measm = Some y ->
+     Pyy_invertible (@ut_additive_meas OM (mx_layout predm) (l_noiseless Lmeas) n n m m n
+                       (@ut_weights_of OM (l_noiseless Ldesc) a b k) (mx_comps predm) fM R)) ->
+  repr_corr (@ukf_correct_additive OL n m Ldesc Lmeas a b k skip measl fL gL lR predl corrl stl)
+            (@ukf_correct_additive OM n m Ldesc Lmeas a b k skip measm fM gM R predm corrm stm).
+Proof.
+move=> Hf rR Hsq Hu; rewrite /ukf_correct_additive; case E: skip; first exact: repr_corr_idle.
+case: measl measm rmeas Hsq Hu => [ly|] [y|] //= ry Hsq Hu; last first.
+  by case: rst => _ rPyy; apply: repr_corr_idle => //; exact: repr_ukfst_nil.
+have [El rc Ew] := rp; rewrite El.
+apply: ukf_correct_finish_repr => //; last exact: (Hu E y erefl).
+apply: ut_additive_meas_transport => //.
+by apply: comps_sq => //; exact: Hsq.
+Qed.
+
+Theorem ukf_correct_generic_transport q fL fM lRv (Rv : 'M[F]_q) :
+  @fopt_corr F (n + q) m fL fM -> repr q q lRv Rv ->
+  (skip = false -> measm <> None ->
+   sq_corr_comps (List.map (@augment_comp OL n n q lRv) (mx_comps predl))
+                 (List.map (@augment_comp OM n n q Rv) (mx_comps predm))) ->
+  (skip = false -> forall y, measm = Some y ->
+     Pyy_invertible (@ut_meas OM (l_add_noise (mx_layout predm) q) (l_noiseless Lmeas) (n + q) (n + q) m m n
+                       (@ut_weights_of OM Ldesc a b k) (List.map (@augment_comp OM n n q Rv) (mx_comps predm)) fM)) ->
+  repr_corr (@ukf_correct_generic OL n q m Ldesc Lmeas a b k skip measl fL gL lRv predl corrl stl)
+            (@ukf_correct_generic OM n q m Ldesc Lmeas a b k skip measm fM gM Rv predm corrm stm).
+Proof.
+move=> Hf rR Hsq Hu; rewrite /ukf_correct_generic; case E: skip; first exact: repr_corr_idle.
+case: measl measm rmeas Hsq Hu => [ly|] [y|] //= ry Hsq Hu; last first.
+  by case: rst => _ rPyy; apply: repr_corr_idle => //; exact: repr_ukfst_nil.
+have [El rc Ew] := rp; rewrite El.
+apply: ukf_correct_finish_repr => //; last exact: (Hu E y erefl).
+apply: ut_meas_transport => //.
+apply: comps_sq; last exact: Hsq.
+by apply: F2_map; apply: F2_impl rc => cl cm rcc; exact: augment_comp_repr.
+Qed.
+End Correct.
+
+(* ---- likelihood ---- *)
+Theorem ukf_likelihood_transport m (stl : ukf_state OL m) (stm : ukf_state OM m) :
+  repr_ukfst stl stm ->
+  List.Forall (fun P : 'M[F]_m => P \in unitmx) (List.firstn (length (us_innov stm)) (us_Pyy stm)) ->
+  @ukf_likelihood OL m stl = @ukf_likelihood OM m stm.
+Proof.
+move=> [rnu rP]; rewrite /ukf_likelihood.
+case: rnu => [|ln nu lns nus rn rns] // Hu; congr Some.
+move: rP Hu (List.Forall2_cons _ _ rn rns).
+move: (ln :: lns) (nu :: nus) => {ln nu lns nus rn rns} lns nus rP Hu rns.
+elim: rns (us_Pyy stl) (us_Pyy stm) rP Hu => [|ln nu lns' nus' rn _ IH] lPs Ps rP //= Hu.
+case: rP Hu => [|lP P lPs' Ps' rP rPs] //= Hu.
+have [uP Hu'] : P \in unitmx /\ List.Forall (fun P : 'M[F]_m => P \in unitmx) (List.firstn (length nus') Ps').
+  by inversion Hu.
+rewrite (IH _ _ rPs Hu'); congr cons.
+exact: (density_transport tr sq eg rn (repr_mzero tr m 1) rP uP).
+Qed.
+
+Lemma lin_innovation_cols_corr m :
+  @inn_corr m (@lin_innovation_cols OL m) (@lin_innovation_cols OM m).
+Proof.
+move=> lP P ly y rP ry; rewrite /lin_innovation_cols /=.
+apply: F2_map; apply: F2_impl rP => l p rp; rewrite /lin_innovation.
+by apply: Ropp; exact: Rsub.
+Qed.
+
+(* ---- linear measurement models (the scope of C04): the invertibility premise is derived ----
+   y = H x + v with an SPD noise covariance R, plain (linear, noise-free) state layout, PSD
+   covariances factored exactly by the MathComp-side square-root oracle: every predicted
+   measurement covariance is H P_i H^T + R, invertible (C04_Proofs.ukf_Pyy_unit). *)
+Section Linear.
+Variables (n m : nat) (Ldesc Lmeas : layout) (a b k : F).
+Variables (H : 'M[F]_(m,n)) (R : 'M[F]_m) (predm : mixture OM n n).
+Hypothesis pred_plain : plain_layout (mx_layout predm) n.
+Hypothesis Lmeas_lin : l_lin Lmeas = m.
+Hypothesis Lmeas_circ : l_circ Lmeas = 0%N.
+Hypothesis Ldesc_lin : l_lin Ldesc = n.
+Hypothesis Ldesc_circ : l_circ Ldesc = 0%N.
+Let w := @ut_weights OM n a b k.
+Hypothesis c_ne0 : w_c w != 0.
+Hypothesis sqrt_c : t_sqrt tr (w_c w) * t_sqrt tr (w_c w) = w_c w.
+Hypothesis factor_ok : forall mc : 'cV[F]_n * 'M[F]_n, List.In mc (mx_comps predm) -> sq mc.2 *m (sq mc.2)^T = mc.2.
+Hypothesis psdP : forall mc : 'cV[F]_n * 'M[F]_n, List.In mc (mx_comps predm) -> psd mc.2.
+Hypothesis spdR : spd R.
+
+Lemma Pyy_invertible_additive_linear :
+  Pyy_invertible (@ut_additive_meas OM (mx_layout predm) (l_noiseless Lmeas) n n m m n
+                    (@ut_weights_of OM (l_noiseless Ldesc) a b k) (mx_comps predm)
+                    (fun X => Some (@linear_cols OM n m H X)) R).
+Proof.
+rewrite /ut_weights_of.
+have -> : l_dcov (l_noiseless Ldesc) = n by rewrite /l_dcov /l_dx /= Ldesc_lin Ldesc_circ; lia.
+rewrite /ut_additive_meas /ut_generic linear_cols_affine.
+have Hn : l_lin (mx_layout predm) = n by case: pred_plain.
+have Hm : l_lin (l_noiseless Lmeas) = m by [].
+rewrite (ut_core_affine (plain_linear pred_plain) Hn Hm c_ne0 sqrt_c _ _ factor_ok) add_noise_affine /=.
+apply/List.Forall_forall => u /List.in_map_iff [mc [<- Hin]] /=.
+by apply: ukf_Pyy_unit => //; exact: psdP.
+Qed.
+End Linear.
+
+End UKF.
+
+(* ---- non-vacuity: all premises of the correction transport hold together on a concrete
+   family of instances: identity functions as the two square-root oracles, identity prior
+   covariance, identity measurement matrix and noise covariance, any dimension, any field with
+   sqrt 1 = 1 (alpha = 1, kappa = 1 - n, so that c = n + lambda = 1) ---- *)
+Section NonVacuity.
+Variable F : realFieldType.
+Variable tr : Transc F.
+Local Notation id_sq := (@id_sq F).
+Local Notation zero_eg := (@zero_eg F).
+Local Notation id_sqL := (@id_sqL F).
+Local Notation zero_egL := (@zero_egL F tr).
+Let OL := ListMat (FOps tr) id_sqL zero_egL.
+Let OM := MxMat tr id_sq zero_eg.
+Definition plainL (n : nat) : layout := mkLayout n 0 false 0.
+Definition unit_mixL n : mixture OL n n :=
+  @mkMix OL n n (plainL n) (cons (@mzero OL n 1, @mid OL n) nil) (cons 1 nil).
+Definition unit_mixM n : mixture OM n n :=
+  @mkMix OM n n (plainL n) (cons (0 : 'cV[F]_n, 1%:M : 'M[F]_n) nil) (cons 1 nil).
+Definition unit_kappa (n : nat) : F := 1 - sofnat (FOps tr) n.
+Local Notation Uzero := (@r_zero F tr id_sq zero_eg id_sqL zero_egL).
+Local Notation Uid := (@r_id F tr id_sq zero_eg id_sqL zero_egL).
+
+Lemma unit_mix_repr n : repr_mix (unit_mixL n) (unit_mixM n).
+Proof.
+split=> //=; apply: List.Forall2_cons; last exact: List.Forall2_nil.
+by split; [exact: Uzero | exact: Uid].
+Qed.
+
+Lemma unit_sq_corr n : sq_corr_comps id_sq id_sqL (mx_comps (unit_mixL n)) (mx_comps (unit_mixM n)).
+Proof. by apply: List.Forall2_cons; [exact: Uid | exact: List.Forall2_nil]. Qed.
+
+Lemma unit_c n : w_c (@ut_weights OM n 1 0 (unit_kappa n)) = 1.
+Proof.
+rewrite /ut_weights /ut_lambda /unit_kappa /=; set x := _%:~R.
+by rewrite !mul1r (addrC x (1 - x)) subrK addrC subrK.
+Qed.
+
+Lemma ukf_correct_premises_satisfiable n : t_sqrt tr 1 = 1 ->
+  [/\ eg_corr zero_eg zero_egL (l_noiseless (plainL n)),
+      @inn_corr F n (@lin_innovation_cols OL n) (@lin_innovation_cols OM n),
+      repr_mix (unit_mixL n) (unit_mixM n) /\
+      sq_corr_comps id_sq id_sqL (mx_comps (unit_mixL n)) (mx_comps (unit_mixM n)),
+      @fopt_corr F n n (fun X => Some (@linear_cols OL n n (@mid OL n) X))
+                       (fun X => Some (@linear_cols OM n n (1%:M : 'M[F]_n) X)) &
+      Pyy_invertible (@ut_additive_meas OM (mx_layout (unit_mixM n)) (l_noiseless (plainL n)) n n n n n
+                        (@ut_weights_of OM (l_noiseless (plainL n)) 1 0 (unit_kappa n)) (mx_comps (unit_mixM n))
+                        (fun X => Some (@linear_cols OM n n (1%:M : 'M[F]_n) X)) (1%:M : 'M[F]_n))].
+Proof.
+move=> sqrt1; split.
+- by [].
+- exact: lin_innovation_cols_corr.
+- by split; [exact: unit_mix_repr | exact: unit_sq_corr].
+- by move=> lX X rX; apply: (linear_cols_corr tr id_sq zero_eg id_sqL zero_egL) => //; exact: Uid.
+- apply: Pyy_invertible_additive_linear => //.
+  + by rewrite unit_c oner_neq0.
+  + by rewrite unit_c sqrt1 mulr1.
+  + by move=> mc [<-|[]] /=; rewrite /id_sq mul1mx trmx1.
+  + by move=> mc [<-|[]] /=; apply: spd_psd; exact: spd1.
+  + exact: spd1.
+Qed.
+
+(* ... and the transport theorem applies: the executed correction of this instance represents
+   the MathComp one (measurement y = 0) *)
+Lemma ukf_correct_unit_instance n : t_sqrt tr 1 = 1 ->
+  repr_corr (@ukf_correct_additive OL n n (plainL n) (plainL n) 1 0 (unit_kappa n) false (Some (@mzero OL n 1))
+               (fun X => Some (@linear_cols OL n n (@mid OL n) X)) (@lin_innovation_cols OL n) (@mid OL n)
+               (unit_mixL n) (unit_mixL n) (@mkUkfState OL n nil nil))
+            (@ukf_correct_additive OM n n (plainL n) (plainL n) 1 0 (unit_kappa n) false (Some (0 : 'cV[F]_n))
+               (fun X => Some (@linear_cols OM n n (1%:M : 'M[F]_n) X)) (@lin_innovation_cols OM n) (1%:M : 'M[F]_n)
+               (unit_mixM n) (unit_mixM n) (@mkUkfState OM n nil nil)).
+Proof.
+move=> sqrt1; have [Heg Hg [rp Hsq] Hf HP] := ukf_correct_premises_satisfiable n sqrt1.
+apply: ukf_correct_additive_transport => //.
+- exact: Uzero.
+- by apply: repr_ukfst_nil; exact: List.Forall2_nil.
+- exact: Uid.
+Qed.
+End NonVacuity.
+
+Print Assumptions ukf_predict_additive_transport.
+Print Assumptions ukf_predict_generic_transport.
+Print Assumptions ukf_correct_additive_transport.
+Print Assumptions ukf_correct_generic_transport.
+Print Assumptions ukf_likelihood_transport.
